@@ -160,6 +160,91 @@ def run_case(seed, params=None):
 
 
 def run_case_params(seed, params, spec=None):
-    r = run_case(seed, params)
+    if params.get("stores"):
+        r = run_store_case(seed, params)
+    else:
+        r = run_case(seed, params)
     r["spec"]["params_in"] = params
     return r
+
+
+# ----------------------------------------------------------------------------- store histories (E1) replayed
+STORE_MODE = {"kinds": ["rprs", "rrs", "filter", "filter_td", "buffer_fifo", "buffer_lifo", "fleet", "bufferstore_fifo", "bufferstore_lifo",
+                        "slotbelt", "belt_acc", "belt_nacc"],
+              "profiles": ["hoarder", "mixed", "cancel_storm", "prio_storm", "full_store", "burst"]}
+
+
+def _store_run(seed, params=None, forgetful=1.0):
+    from . import e1
+    mode = dict(STORE_MODE, forgetful=forgetful)
+    for k in ("kinds", "profiles"):
+        if params and params.get(k):
+            mode[k] = params[k]
+    with contextlib.redirect_stdout(open(os.devnull, "w")):
+        r = e1.run_case(seed, mode=mode)
+    return {"ops": r["hash"], "n": r["nops_done"], "end": r["end"], "crash": (r["crash"] or {}).get("type"),
+            "viol": sorted(r["viol_count"])}, r
+
+
+def store_child_main():
+    seed = int(sys.argv[1])
+    prefill = int(sys.argv[2])
+    params = json.loads(sys.argv[3]) if len(sys.argv) > 3 else None
+    junk = [object() for _ in range(prefill)]
+    junk2 = [{"a": i} for i in range(prefill // 7)]
+    use_repo()
+    shim.install()
+    d, _ = _store_run(seed, params)
+    sys.stdout.write(json.dumps(d) + "\n")
+    sys.stdout.flush()
+    os._exit(0)
+
+
+def run_store_case(seed, params):
+    """The same client history on one store, three times: twice in this interpreter (first with forgetful clients - used and
+    cancelled tokens and retrieved items are freed at once and their addresses re-used -, then with clients that keep every object
+    alive, so that no address is ever re-used; a pile of garbage is allocated and freed in between) and, for every fourth case, in a fresh interpreter with another
+    hash seed and heap pre-fill.  The clients are deterministic given the seed and what the store answers, so the operation logs
+    (every call, every answer, every item handed out) must be identical; a store whose answers depend on object addresses
+    (id()-keyed bookkeeping that outlives the object) differs from run to run."""
+    use_repo()
+    shim.install()
+    viol, vc = [], {}
+
+    def v(check, mech, detail):
+        key = f"C19|{check}|{mech}"
+        vc[key] = vc.get(key, 0) + 1
+        if len(viol) < 4:
+            viol.append({"property": "C19", "check": check, "mechanism": mech, "detail": detail, "log_tail": []})
+
+    d1, r1 = _store_run(seed, params)
+    junk = [[object() for _ in range(50)] for _ in range(400)]
+    del junk
+    keep = [object() for _ in range(seed % 97)]
+    # second run: the clients (and the monitor) keep every token and item alive - same calls, other object lifetimes
+    d2, r2 = _store_run(seed, params, forgetful=0.0)
+    kind = r1["spec"]["kind"]
+    if d1 != d2:
+        v("same_interpreter_store_history", f"{kind}:same-client-history-run-twice-in-one-interpreter-differs", {"a": d1, "b": d2})
+    children = 0
+    if seed % 4 == 0 and params.get("children", 1):
+        env = dict(os.environ, PYTHONHASHSEED=str(1 + seed % 5000))
+        try:
+            p = subprocess.run([sys.executable, "-c", "from fsmon.workloads.e7 import store_child_main; store_child_main()", str(seed),
+                                str(1000 + (seed % 7) * 40000), json.dumps(params)], capture_output=True, text=True, timeout=120, env=env)
+            d3 = json.loads(p.stdout.strip().splitlines()[-1])
+            children = 1
+            if d3 != d1:
+                v("cross_interpreter_store_history", f"{kind}:same-client-history-in-a-fresh-interpreter-differs", {"a": d1, "b": d3})
+        except Exception:
+            pass
+    reused = r1["counters"].get("e1_token_addresses_reused", 0) + r1["counters"].get("e1_item_addresses_reused", 0)
+    return {
+        "spec": {"engine": "E7", "seed": seed, "kind": "store/" + kind, "profile": r1["spec"]["profile"]},
+        "viol": viol, "viol_count": vc,
+        "counters": {"c19_store_histories_compared": 1, "c19_store_runs_compared": 2 + children, "c19_store_child_interpreters": children,
+                     "c19_store_addresses_reused": reused, "c19_store_ops": r1["nops_done"]},
+        "stats": {}, "nontrivial": {"C19": reused > 0 and r1["nops_done"] >= 40},
+        "hash": "s" + r1["hash"], "crash": None, "sample_ops": r1["sample_ops"][:25], "steps": r1["steps"] + r2["steps"],
+        "sigs": 0, "max_burst": max(r1["max_burst"], r2["max_burst"]), "clock_back": r1["clock_back"] + r2["clock_back"],
+    }
